@@ -2,9 +2,19 @@
     Only statements live here; each is closed by [exact] of a lemma proved elsewhere. *)
 From Coq Require Import List ZArith Sorted.
 From Coq Require String.
-From V Require Import Gen.Params PktProt.PktNum PktProt.PktNumProofs PktProt.KeyPhase PktProt.KeyPhaseProofs PktProt.KeyDerive PktProt.KeyDeriveProofs PktProt.KeyPhaseRun PktProt.KeyPhaseWindow PktProt.KeyPhaseSys PktProt.KeyPhaseSysProofs PktProt.KeyPhaseSysPn PktProt.KeyPhaseSysPnProofs PktProt.KeyPhaseExamples PktProt.Sha256 PktProt.InitialKeys PktProt.InitialKeysProofs PktProt.Aes PktProt.InitialProtect PktProt.InitialProtectExamples PktProt.Retry PktProt.RetryProofs PktProt.AesProofs PktProt.ChaCha PktProt.ChaChaExamples Lib.Hex PktProt.Protect PktProt.ProtectProofs PktProt.ProtectExamples PktProt.ProtectPack PktProt.ProtectPackProofs Wire.Varint Wire.VarintProofs Wire.Headers Wire.HeadersProofs PktProt.ProtectLong PktProt.ProtectLongProofs.
+From V Require Import Gen.Params PktProt.PktNum PktProt.PktNumProofs PktProt.KeyPhase PktProt.KeyPhaseProofs PktProt.KeyDerive PktProt.KeyDeriveProofs PktProt.KeyPhaseRun PktProt.KeyPhaseWindow PktProt.KeyPhaseSys PktProt.KeyPhaseSysProofs PktProt.KeyPhaseSysPn PktProt.KeyPhaseSysPnProofs PktProt.KeyPhaseExamples PktProt.Sha256 PktProt.InitialKeys PktProt.InitialKeysProofs PktProt.Aes PktProt.InitialProtect PktProt.InitialProtectExamples PktProt.Retry PktProt.RetryProofs PktProt.AesProofs PktProt.ChaCha PktProt.ChaChaExamples PktProt.TamperExamples Lib.Hex PktProt.Protect PktProt.ProtectProofs PktProt.ProtectExamples PktProt.ProtectPack PktProt.ProtectPackProofs Wire.Varint Wire.VarintProofs Wire.Headers Wire.HeadersProofs PktProt.ProtectLong PktProt.ProtectLongProofs.
 Import ListNotations.
 Open Scope Z_scope.
+
+(** Scope notes.  (i) The premise "length chosen by PacketNumberLengthForHeader" holds for every
+    packet of the plain stack; a uQUIC spec-driven client takes the packet number LENGTH of its
+    Initial packets from the spec (uSentPacketHandler.PeekPacketNumber; 1 byte is possible) —
+    that exception is property C10's (C10_first_pn_decodable_iff ...), not covered here.
+    (ii) C05_initial_keys_rfc and C05_key_update_derivation_rfc are proved by reflexivity: they
+    check that the constants and labels read from the code are the RFC's and that the model
+    has the RFC's shape; that the CODE computes this function is the job of the initialkeys /
+    keyphase correspondence cases (Gallina SHA-256/HKDF vs. NewInitialAEAD, the harness' own
+    HKDF vs. getNextTrafficSecret) and of the RFC Appendix A vectors. *)
 
 (** (g) The truncated packet number always decodes to the true one given what the sender
     knows to be acknowledged: the sender picks the length with PacketNumberLengthForHeader
@@ -492,3 +502,27 @@ Example C05_rfc9001_A5_chacha :
     = UOk 66 654360564 3 0 (hx "01").
 Proof. exact rfc9001_A5. Qed.
 Print Assumptions C05_rfc9001_A5_chacha.
+
+(** Header authentication on concrete ciphers (companion of C05_tamper_rejected, whose
+    ideal-integrity hypothesis is an assumption about the cipher): the RFC A.3 packet under the
+    Gallina AES-128-GCM and the A.5 packet under the Gallina ChaCha20-Poly1305 open, and with a
+    single bit flipped in the unprotected header, the protected first byte (key phase bit /
+    reserved bit / packet number length), the packet number, the ciphertext or the tag the
+    unpacker's open fails.  (C05_protect_nonvacuous only shows that the hypotheses are
+    jointly satisfiable, with an AEAD that ignores nonce and header.) *)
+Example C05_tamper_concrete :
+  a3_open server_initial_version1_packet = UOk 193 1 2 0 server_initial_version1_payload /\
+  a3_open (flip_bit server_initial_version1_packet 0 2) = UDecryptFailed /\
+  a3_open (flip_bit server_initial_version1_packet 0 0) = UDecryptFailed /\
+  a3_open (flip_bit server_initial_version1_packet 4 0) = UDecryptFailed /\
+  a3_open (flip_bit server_initial_version1_packet 8 7) = UDecryptFailed /\
+  a3_open (flip_bit server_initial_version1_packet 18 0) = UDecryptFailed /\
+  a3_open (flip_bit server_initial_version1_packet 40 3) = UDecryptFailed /\
+  a3_open (flip_bit server_initial_version1_packet 134 0) = UDecryptFailed /\
+  a5_unprotect a5_packet = UOk 66 654360564 3 0 (hx "01") /\
+  a5_unprotect (flip_bit a5_packet 0 2) = UDecryptFailed /\
+  a5_unprotect (flip_bit a5_packet 2 0) = UDecryptFailed /\
+  a5_unprotect (flip_bit a5_packet 4 5) = UDecryptFailed /\
+  a5_unprotect (flip_bit a5_packet 20 7) = UDecryptFailed.
+Proof. exact tamper_concrete. Qed.
+Print Assumptions C05_tamper_concrete.
